@@ -111,7 +111,7 @@ def check_C07(A: Analysis, tier):
 
     rc = Rule("C07", "C07.c", "the non-blocking try-claim occurs only in store_object on the pid claim list and "
               "raises the documented in-progress error", floor=2)
-    for op in A.lockops:
+    for op in A.all_lockops():
         if op.kind == "tryclaim":
             rc.inst(f"{op.func.qual}:{op.node.lineno} try-claim on {op.cls} ({op.mode})")
             rc.ob()
@@ -159,7 +159,7 @@ def check_C07(A: Analysis, tier):
     rules.append(rg)
 
     re_ = Rule("C07", "C07.e", "an identifier claim waits, in a re-checking loop, on the key and list it then appends", floor=6)
-    for op in A.lockops:
+    for op in A.all_lockops():
         if op.kind == "acquire" and op.cls != "metadata_locked_docs":
             re_.inst(f"{op.func.qual}:{op.node.lineno} acquire {op.cls} ({op.mode})")
             re_.ob()
@@ -179,7 +179,7 @@ def check_C08(A: Analysis, tier):
     ra = Rule("C08", "C08.a", "what a claim appends is what its release removes (dynamic pairing, see C08.b) and "
               "the condition a release notifies is the condition the acquire waits on", floor=8)
     by = {}
-    for op in A.lockops:
+    for op in A.all_lockops():
         if op.kind in ("acquire", "release") and op.cls:
             by.setdefault((op.cls, op.mode), {"wait": set(), "notify": set(), "ops": []})
             d = by[(op.cls, op.mode)]
@@ -264,7 +264,7 @@ def check_C08(A: Analysis, tier):
               "raise occur while a condition's mutex is held", floor=20)
     re_ = Rule("C08", "C08.e", "every wait() is the body of a `while key in list` loop under its own condition", floor=8)
     rf = Rule("C08", "C08.f", "every release notifies its condition after removing the key", floor=8)
-    for op in A.lockops:
+    for op in A.all_lockops():
         rd.inst(f"{op.func.qual}:{op.node.lineno} with self.{op.cond} ({op.kind})")
         rd.ob()
         if op.kind == "acquire":
@@ -290,7 +290,7 @@ def check_C08(A: Analysis, tier):
 def check_C12(A: Analysis, tier):
     rules = []
     ra = Rule("C12", "C12.a", "a metadata-document claim waits on the document name it then appends", floor=6)
-    for op in A.lockops:
+    for op in A.all_lockops():
         if op.kind == "acquire" and op.cls == "metadata_locked_docs":
             ra.inst(f"{op.func.qual}:{op.node.lineno} acquire metadata_locked_docs ({op.mode})")
             ra.ob()
@@ -473,10 +473,19 @@ def check_C16(A: Analysis, tier):
         rc.inst(f"{f.qual}:{n.lineno} twin")
         rc.ob()
         pol_mp_first = _eval_guard(n.test, True)
-        mp, th = (n.body, n.orelse) if pol_mp_first else (n.orelse, n.body)
+        orelse = n.orelse
+        if not orelse and n.body and isinstance(n.body[-1], (ast.Return, ast.Raise)):
+            # `if mode: return X_mp` followed by `return X_th`: the rest of the block is the else side
+            blk = getattr(n, "_parent", None)
+            for fld in ("body", "orelse", "finalbody"):
+                lst = getattr(blk, fld, None)
+                if isinstance(lst, list) and any(n is x for x in lst):
+                    orelse = lst[[i for i, x in enumerate(lst) if x is n][0] + 1:]
+        mp, th = (n.body, orelse) if pol_mp_first else (orelse, n.body)
         a = "\n".join(ast.unparse(s) for s in _strip_logging(mp))
         b = "\n".join(ast.unparse(s) for s in _strip_logging(th))
         a2 = re.sub(r"_mp\b", "_th", a)
+        a2 = re.sub(r"(['\"])mp\1", r"\1th\1", a2)
         if a2 != b:
             la, lb = a2.splitlines(), b.splitlines()
             diff = next(((x, y) for x, y in zip(la, lb) if x != y), (la[len(lb):][:1] or [""], lb[len(la):][:1] or [""]))
